@@ -213,11 +213,37 @@ class Evaluator:
         self._summ[path] = Tm("opaque", ("recursion:" + path,))
         env = self.fn_env(path)
         st = _State(env)
+        base = len(self.pc)
         t = self.ev(self.prog.root(path), st, 0)
-        alts = [t] + st.returns
-        res = t if len(alts) == 1 else phi(alts)
+        res = self.with_returns(t, st.returns, base)
         self._summ[path] = res
         self._last_state = st
+        return res
+
+    def with_returns(self, t, returns, base):
+        """The function's value: its tail value, overridden by each early `return v` under the conditions that lead to it
+        (if / match arms are rebuilt around v; a return inside a loop is joined in as an alternative)."""
+        res = t
+        WILD = {"k": "Wild", "ty": ""}
+        for r in reversed(returns):
+            pc, v, in_loop = r
+            pc = pc[base:]
+            if in_loop or any(c[0] not in ("if", "arm", "notarm") for c in pc):
+                res = phi([res, v])
+                continue
+
+            def wrap(i, res=res, v=v, pc=pc):
+                if i == len(pc):
+                    return v
+                c = pc[i]
+                inner = wrap(i + 1)
+                if c[0] == "if":
+                    return Tm("if", (c[1], inner, res)) if c[2] else Tm("if", (c[1], res, inner))
+                if c[0] == "arm":
+                    earlier = tuple((p0, g0, res) for p0, g0 in (c[4] if len(c) > 4 else ()))
+                    return Tm("match", (c[1], earlier + ((c[2], c[3], inner), (WILD, None, res))))
+                return Tm("match", (c[1], ((c[2], None, res), (WILD, None, inner))))
+            res = wrap(0)
         return res
 
     def sited(self, path):
@@ -260,9 +286,9 @@ class Evaluator:
     def summary_with_state(self, path):
         env = self.fn_env(path)
         st = _State(env)
+        base = len(self.pc)
         t = self.ev(self.prog.root(path), st, 0)
-        alts = [t] + st.returns
-        return (t if len(alts) == 1 else phi(alts)), st
+        return self.with_returns(t, st.returns, base), st
 
     def apply(self, f, args, depth=0):
         """Apply a closure / fnitem term to argument terms."""
@@ -290,9 +316,9 @@ class Evaluator:
             a = args[i] if i < len(args) else Tm("opaque", ("missing-arg",))
             self.bind(pat, a, env)
         st = _State(env)
+        base = len(self.pc)
         t = self.ev(self.prog.root(path), st, depth + 1)
-        alts = [t] + st.returns
-        return t if len(alts) == 1 else phi(alts)
+        return self.with_returns(t, st.returns, base)
 
     # ------------------------------------------------------------ patterns
     def bind(self, pat, val, env, path=""):
@@ -438,10 +464,8 @@ class Evaluator:
             self.assign(e["l"], t, st, depth)
             return Tm("tuple", (), e)
         if k == "Return":
-            if "e" in e:
-                st.returns.append(self.ev(e["e"], st, depth))
-            else:
-                st.returns.append(Tm("tuple", (), e))
+            v = self.ev(e["e"], st, depth) if "e" in e else Tm("tuple", (), e)
+            st.returns.append((tuple(self.pc), v, st.in_loop))
             return Tm("opaque", ("never",), e)
         if k == "Break":
             if "e" in e:
@@ -680,7 +704,7 @@ class Evaluator:
             g = self.ev(a["guard"], s2, depth) if "guard" in a else None
             if g is not None and self.conds is not None:
                 self.conds.append(g)
-            self.pc.append(("arm", scrut, a["pat"], g))
+            self.pc.append(("arm", scrut, a["pat"], g, tuple((p0, g0) for p0, g0, _ in arms)))
             b = self.ev(a["body"], s2, depth)
             self.pc.pop()
             arms.append((a["pat"], g, b))
@@ -711,6 +735,7 @@ class Evaluator:
             return Tm("opaque", ("for-shape",), e)
         assigned = _assigned_vars(body_arm["body"])
         s2 = st.fork()
+        s2.in_loop = True
         for v in assigned:
             if v in s2.env:
                 s2.env[v] = phi([s2.env[v], Tm("loopvar", (v,))])
@@ -725,6 +750,7 @@ class Evaluator:
             self.sites.append({"kind": "loop", "node": e, "term": None, "pc": tuple(self.pc), "env": dict(st.env)})
         assigned = _assigned_vars(e["body"])
         s2 = st.fork()
+        s2.in_loop = True
         for v in assigned:
             if v in s2.env:
                 s2.env[v] = phi([s2.env[v], Tm("loopvar", (v,))])
@@ -847,9 +873,11 @@ class _State:
         self.breaks = []
         self.assigned = {}
         self.loops = []
+        self.in_loop = False
 
     def fork(self):
         s = _State(dict(self.env))
+        s.in_loop = self.in_loop
         s.returns = self.returns      # shared: returns are function-wide
         s.breaks = self.breaks
         s.loops = self.loops
